@@ -114,16 +114,32 @@ func (in *crInst) lockMin(c string, h uint32) int64 {
 	if mem := in.w.C.GetMember(crkit.K(c).DID); mem != nil && mem.MemberState == crstate.MemberElected && in.w.C.IsInElectionPeriod() {
 		return lockV1
 	}
-	if m.unregH != 0 {
-		if h < m.unregH+crLockup {
-			return lockV1
-		}
+	// At a committee change every candidate that did not get a seat has its lock released,
+	// also one that unregistered less than the lock-up ago. Only candidates of the first voting
+	// period are given a demand (later registrations: nothing is demanded).
+	if m.regH >= crFirstCommittee || h >= crFirstCommittee {
 		return 0
 	}
-	if m.regH < crFirstCommittee && h < crFirstCommittee {
-		return lockV1
+	if m.unregH != 0 && h >= m.unregH+crLockup {
+		return 0
 	}
-	return 0
+	return lockV1
+}
+
+// everMember: c sits or sat on the council.
+func (in *crInst) everMember(c string) bool {
+	k := crkit.K(c)
+	if in.w.C.GetMember(k.DID) != nil {
+		return true
+	}
+	for _, ms := range in.w.C.HistoryMembers {
+		for _, hm := range ms {
+			if hm.Info.CID.IsEqual(k.CID) {
+				return true
+			}
+		}
+	}
+	return false
 }
 
 func (in *crInst) dep(c string) (total, locked, penalty int64, ok bool) {
@@ -403,7 +419,11 @@ func (in *crInst) invariants(after, ret string) *fail {
 			return failf("C28|negative|cr.DepositInfo.Penalty|after="+after, "CR %s: penalty %s is negative", c, ela(pen))
 		}
 		if locked < 0 && soft == nil {
-			soft = failf("C28|negative|cr.DepositInfo.DepositAmount", "CR %s: the locked part of the deposit is %s, so the available amount is %s although only %s sit on the deposit address and penalties are %s", c, ela(locked), ela(total-locked-pen), ela(m.balance()), ela(pen))
+			role := "|candidate"
+			if in.everMember(c) {
+				role = "|member"
+			}
+			soft = failf("C28|negative|cr.DepositInfo.DepositAmount"+role, "CR %s: the locked part of the deposit is %s, so the available amount is %s although only %s sit on the deposit address and penalties are %s", c, ela(locked), ela(total-locked-pen), ela(m.balance()), ela(pen))
 			soft.soft = true
 		}
 		if c == ret {
